@@ -63,6 +63,9 @@ func (m *AssetRatesParams) Validate() error {
 	if m.UOptimal.LTE(sdk.ZeroDec()) {
 		return fmt.Errorf("UOptimal cannot be zero")
 	}
+	if m.UOptimal.GTE(sdk.OneDec()) {
+		return fmt.Errorf("UOptimal must be less than one")
+	}
 	if m.Base.LTE(sdk.ZeroDec()) {
 		return fmt.Errorf("base cannot be zero")
 	}
@@ -118,6 +121,9 @@ func (m *AssetRatesPoolPairs) Validate() error {
 	}
 	if m.UOptimal.LTE(sdk.ZeroDec()) {
 		return fmt.Errorf("UOptimal cannot be zero")
+	}
+	if m.UOptimal.GTE(sdk.OneDec()) {
+		return fmt.Errorf("UOptimal must be less than one")
 	}
 	if m.Base.LTE(sdk.ZeroDec()) {
 		return fmt.Errorf("base cannot be zero")
